@@ -46,6 +46,23 @@ func program(name, server string) (setup, burst [][]byte, files map[string]strin
 		setup = [][]byte{mustPkt(&sshFxpOpenPacket{ID: 1, Path: nm("f"), Pflags: sshFxfRead | sshFxfWrite})}
 		burst = [][]byte{rd(10, "1", 0, 2), mustPkt(&sshFxpLstatPacket{ID: 11, Path: nm("missing")}), wr(12, "1", 8, "zw"), rd(13, "1", 2, 2),
 			mustPkt(&sshFxpClosePacket{ID: 14, Handle: "1"})}
+	case "rsplit": // a read-only and a write-only handle: the request server's fileget / fileput paths
+		setup = [][]byte{
+			mustPkt(&sshFxpOpenPacket{ID: 1, Path: nm("f"), Pflags: sshFxfRead}),
+			mustPkt(&sshFxpOpenPacket{ID: 2, Path: nm("g"), Pflags: sshFxfWrite}),
+		}
+		burst = [][]byte{rd(10, "1", 0, 2), wr(11, "2", 0, "xy"), rd(12, "1", 2, 2), wr(13, "2", 2, "zw"), rd(14, "1", 4, 2),
+			mustPkt(&sshFxpClosePacket{ID: 15, Handle: "1"}), mustPkt(&sshFxpClosePacket{ID: 16, Handle: "2"})}
+	case "rweof": // a read that crosses the end of the file (short last chunk) with more requests behind it;
+		// the handle is read-only: the request server serves it through another code path (fileget)
+		// than read-write handles (fileputget)
+		setup = [][]byte{mustPkt(&sshFxpOpenPacket{ID: 1, Path: nm("f"), Pflags: sshFxfRead})}
+		burst = [][]byte{rd(10, "1", 0, 3), rd(11, "1", 14, 4), mustPkt(&sshFxpRealpathPacket{ID: 12, Path: "/p/../q"}), rd(13, "1", 3, 3),
+			mustPkt(&sshFxpRealpathPacket{ID: 14, Path: "/r/./s"})}
+	case "romix": // read-only server: refused requests pipelined behind a read
+		setup = [][]byte{mustPkt(&sshFxpOpenPacket{ID: 1, Path: nm("f"), Pflags: sshFxfRead})}
+		burst = [][]byte{rd(10, "1", 0, 2), mustPkt(&sshFxpMkdirPacket{ID: 11, Path: nm("newdir")}), mustPkt(&sshFxpRmdirPacket{ID: 12, Path: nm("newdir")}),
+			mustPkt(&sshFxpRemovePacket{ID: 13, Filename: nm("g")}), mustPkt(&sshFxpFstatPacket{ID: 14, Handle: "1"}), rd(15, "1", 2, 2)}
 	case "rw2":
 		setup = [][]byte{mustPkt(&sshFxpOpenPacket{ID: 1, Path: nm("f"), Pflags: sshFxfRead | sshFxfWrite})}
 		burst = [][]byte{rd(10, "1", 0, 3), wr(11, "1", 12, "uv"), rd(12, "1", 3, 3)}
@@ -141,6 +158,7 @@ func describeClash(a, b int64) string {
 }
 
 type progOpts struct {
+	readOnly     bool
 	server, name string
 	alloc        bool
 	ref          [][]byte // reference response bodies (allocator off), nil = do not compare
@@ -158,7 +176,7 @@ func responseBytes(fs []frame) [][]byte {
 func progScenario(o progOpts, prop string) explore.Scenario {
 	return func() (func(), func(*vsched.Exec) explore.Verdict) {
 		setup, burst, files := program(o.name, o.server)
-		spec := &srvSpec{server: o.server, alloc: o.alloc, setup: setup, burst: burst, files: files, hangup: -1}
+		spec := &srvSpec{server: o.server, alloc: o.alloc, setup: setup, burst: burst, files: files, hangup: -1, readOnly: o.readOnly}
 		var r *srvRun
 		var usedAtQuiescence, usedKeyOK = -1, true
 		body := func() {
@@ -288,7 +306,7 @@ func runProgs(c *reg.Ctx, prop string, alloc, compare bool) *reg.Result {
 			total.Exhaustive = false
 			break
 		}
-		o := progOpts{server: server, name: name, alloc: alloc, quiesce: alloc}
+		o := progOpts{server: server, name: name, alloc: alloc, quiesce: alloc, readOnly: name == "romix"}
 		if compare {
 			o.ref = progReference(server, name)
 		}
@@ -351,10 +369,10 @@ func init() {
 			var js []reg.Job
 			if tier == "thorough" {
 				js = []reg.Job{
-					pj("C02/sched", "rs W=8 db3", "instr", "rs", "rwmix+cmdmix+extmix", 3, 900, false),
+					pj("C02/sched", "rs W=8 db3", "instr", "rs", "rwmix+cmdmix+extmix+rsplit", 3, 900, false),
 					pj("C02/sched", "rs W=2 db4", "instr-w2", "rs", "rwmix+cmdmix", 4, 900, false),
 					pj("C02/sched", "rs W=3 alloc db3", "instr-w3", "rs", "rwmix+extmix", 3, 600, true),
-					pj("C02/sched", "os W=8 db3", "instr", "os", "rwmix+cmdmix+extmix", 3, 900, false),
+					pj("C02/sched", "os W=8 db3", "instr", "os", "rwmix+cmdmix+extmix+romix", 3, 900, false),
 					pj("C02/sched", "os W=2 db3 alloc", "instr-w2", "os", "rwmix+cmdmix+extmix", 3, 600, true),
 				}
 			} else {
@@ -362,7 +380,8 @@ func init() {
 					pj("C02/sched", "rs W=8 db2", "instr", "rs", "rwmix+cmdmix+extmix", 2, 100, false),
 					pj("C02/sched", "rs W=2 db3", "instr-w2", "rs", "short", 3, 100, false),
 					pj("C02/sched", "os W=2 db2", "instr-w2", "os", "rwmix+cmdmix+extmix", 2, 100, false),
-					pj("C02/sched", "rs W=2 alloc db2", "instr-w2", "rs", "rwmix+cmdmix", 2, 100, true),
+					pj("C02/sched", "os read-only W=2 db2", "instr-w2", "os", "romix", 2, 100, false),
+					pj("C02/sched", "rs W=2 alloc db2", "instr-w2", "rs", "rwmix+cmdmix+rsplit", 2, 100, true),
 				}
 			}
 			if c02ExtraJobs != nil {
@@ -381,15 +400,17 @@ func init() {
 			var js []reg.Job
 			if tier == "thorough" {
 				js = []reg.Job{
-					pj("C18/sched", "rs W=8 db3", "instr", "rs", "rwmix+rw3+cmdmix", 3, 900, true),
+					pj("C18/sched", "rs W=8 db3", "instr", "rs", "rwmix+rw3+cmdmix+rsplit+rweof", 3, 900, true),
 					pj("C18/sched", "rs W=2 db4", "instr-w2", "rs", "rwmix+rw3", 4, 900, true),
+					pj("C18/sched", "rs W=2 db3 read crossing EOF", "instr-w2", "rs", "rweof", 3, 900, true),
 					pj("C18/sched", "os W=3 db3", "instr-w3", "os", "rwmix+rw3", 3, 900, true),
 				}
 			} else {
 				js = []reg.Job{
 					pj("C18/sched", "rs W=8 db2", "instr", "rs", "rw3", 2, 100, true),
-					pj("C18/sched", "rs W=2 db2 four programs", "instr-w2", "rs", "rwmix+rw3+cmdmix+extmix", 2, 100, true),
+					pj("C18/sched", "rs W=2 db2 five programs", "instr-w2", "rs", "rwmix+rw3+cmdmix+extmix+rsplit", 2, 100, true),
 					pj("C18/sched", "rs W=2 db3", "instr-w2", "rs", "rw2", 3, 100, true),
+					pj("C18/sched", "rs W=2 db2 read crossing EOF", "instr-w2", "rs", "rweof", 2, 100, true),
 					pj("C18/sched", "os W=2 db2", "instr-w2", "os", "rwmix+rw3", 2, 100, true),
 					pj("C18/sched", "os W=2 db3", "instr-w2", "os", "rw2", 3, 100, true),
 				}
